@@ -38,7 +38,19 @@ type hookSpec struct {
 	Hook string `json:"hook"`
 }
 
+// callSpec redirects the method calls `<recv>.<method>(args)` of one file to the package-level function
+// `<to>(<pass>, args)` (defined in a tag-guarded export file of the package), e.g. n.conn.ReadFrom() ->
+// verifNDPReadFrom(n): an OS boundary behind a concrete type becomes a seam.
+type callSpec struct {
+	File   string `json:"file"`
+	Recv   string `json:"recv"`
+	Method string `json:"method"`
+	To     string `json:"to"`
+	Pass   string `json:"pass"`
+}
+
 type spec struct {
+	Calls []callSpec `json:"calls"`
 	Map   []string   `json:"map"`
 	Sync  []string   `json:"sync"`
 	Go    []string   `json:"go"`
@@ -74,6 +86,9 @@ func main() {
 	add(sp.Chan, "chan")
 	for _, h := range sp.Hooks {
 		add([]string{h.File}, "hook")
+	}
+	for _, c := range sp.Calls {
+		add([]string{c.File}, "call")
 	}
 	dirs := map[string]bool{}
 	for f := range want {
@@ -129,6 +144,18 @@ func main() {
 			}
 			if kinds["sync"] {
 				rw.rewriteSync()
+			}
+			if kinds["call"] {
+				for _, c := range sp.Calls {
+					if filepath.Join(*repo, c.File) == name {
+						rw.redirectCalls(c)
+					}
+				}
+				if rw.nCall == 0 {
+					fmt.Fprintln(os.Stderr, "vinstr: no call to redirect in", rw.rel)
+					os.Exit(2)
+				}
+				fmt.Fprintf(os.Stderr, "vinstr: %s: %d calls redirected\n", rw.rel, rw.nCall)
 			}
 			if rw.needRT {
 				astutil.AddNamedImport(p.Fset, f, "verifrt", rtPath)
@@ -188,6 +215,7 @@ type rewriter struct {
 	nTime     int
 	nHook     int
 	nChan     int
+	nCall     int
 	syncDone  bool
 	tmp       int
 }
@@ -463,4 +491,27 @@ func (rw *rewriter) insertHook(h hookSpec) {
 		rw.nHook++
 		rw.needRT = true
 	}
+}
+
+func exprString(fset *token.FileSet, e ast.Expr) string {
+	var b bytes.Buffer
+	_ = format.Node(&b, fset, e)
+	return b.String()
+}
+
+func (rw *rewriter) redirectCalls(c callSpec) {
+	astutil.Apply(rw.file, func(cur *astutil.Cursor) bool {
+		ce, ok := cur.Node().(*ast.CallExpr)
+		if !ok {
+			return true
+		}
+		se, ok := ce.Fun.(*ast.SelectorExpr)
+		if !ok || se.Sel.Name != c.Method || exprString(rw.fset, se.X) != c.Recv {
+			return true
+		}
+		ce.Fun = ast.NewIdent(c.To)
+		ce.Args = append([]ast.Expr{ast.NewIdent(c.Pass)}, ce.Args...)
+		rw.nCall++
+		return true
+	}, nil)
 }
